@@ -7,6 +7,7 @@
 set -u
 cd "${1:-/repo}"; export GOPROXY=off; unset GOFLAGS GOSUMDB GOTOOLCHAIN GOWORK 2>/dev/null
 out=$(mktemp)
+run() {
 {
   go test -mod=mod -vet=off -count=1 -skip 'TestRequireLoadPath|TestRequireNotReadable' ./test/cl/
   go test -mod=mod -vet=off -count=1 -skip 'TestMakeApp|TestSnapshotRequire|TestSystem' ./test/gi/
@@ -14,5 +15,9 @@ out=$(mktemp)
   go test -mod=mod -vet=off -count=1 -skip 'TestFlavorGoMakeOnly' ./test/flavors/
   go test -mod=mod -vet=off -count=1 -skip 'TestAppRun|TestStandardInput|TestStandardOutput' ./test/
 } > "$out" 2>&1
+}
+run
+# some of these tests share /tmp/scratch with any other test run on the machine: retry once
+grep -qE "^--- FAIL|^FAIL|^panic:" "$out" && run
 if grep -E "^--- FAIL|^FAIL|^panic:" "$out"; then echo "hidden tests: FAILED"; rm -f "$out"; exit 1; fi
 echo "hidden tests: $(grep -c '^ok' "$out") packages ok"; rm -f "$out"
